@@ -28,7 +28,7 @@ ROOT = "/tmp/vsv"
 
 def goenv():
     e = dict(os.environ)
-    e.update({"GOPROXY": "off", "GOSUMDB": "off", "GOTOOLCHAIN": "local", "GOFLAGS": ""})
+    e.update({"GOPROXY": "off", "GOSUMDB": "off", "GOTOOLCHAIN": "local", "GOFLAGS": "-trimpath"})
     return e
 
 
